@@ -58,7 +58,7 @@ def model_matrix(kind, boxes, els):
     return np.array(m, dtype=bool).reshape(len(boxes), len(els))
 
 
-def check_family(chk, kind, els, boxes, r, tier, tag="grid", oracle_frac=0.25, subtypes=("float64",)):
+def check_family(chk, kind, els, boxes, r, tier, tag="grid", oracle_frac=0.25, subtypes=("float64",), sig_override=None):
     arr0 = geo.make_array(kind, els, "float64")
     arrs = {"float64": arr0}
     model = model_matrix(kind, boxes, els)
@@ -86,7 +86,7 @@ def check_family(chk, kind, els, boxes, r, tier, tag="grid", oracle_frac=0.25, s
             for i in bad[:3]:
                 i = int(i)
                 chk.violation(
-                    f"intersects_bounds/{kind}/array/{classes[i]}/impl={bool(impl[i])}",
+                    sig_override or f"intersects_bounds/{kind}/array/{classes[i]}/impl={bool(impl[i])}",
                     dict(api=f"{kind.title()}Array.intersects_bounds", kind=kind, subtype=st, box=list(given),
                          element=els[i], impl=bool(impl[i]), model=bool(mrow[i]), oracle=geo.oracle_ib(kind, els[i], box)),
                     size=len(geo.verts_of(kind, els[i])))
@@ -230,6 +230,20 @@ def run_cases(chk, tier):
         big_els = [_mv(e, False) for e in els]
         big_boxes = [tuple(B + 2 * c + 1 for c in b) for b in sel] + [tuple(B + 2 * c + (1 if k < 2 else 0) for k, c in enumerate(b)) for b in sel[:20]]
         check_family(chk, kind, big_els, big_boxes, r, tier, tag="float32-precision", oracle_frac=0.05, subtypes=("float32", "float64", "float32"))
+    # single-precision storage, long edges (D35, recorded as a known finding): all coordinates are exact in float32, but the kernels
+    # form `x1 - x0` in the storage precision, where the difference of a small and a large coordinate is rounded
+    for kind in ("line", "multiline", "polygon"):
+        els, bxs = [], []
+        for _ in range(12 if tier == "quick" else 60):
+            ax, ay = r.randint(-9, 9), r.randint(-9, 9)
+            bx_, by_ = 2 ** 24 + 2 * r.randint(0, 6), 2 ** 24 + 2 * r.randint(0, 6)
+            seg = [ax, ay, bx_, by_]
+            els.append(seg if kind == "line" else ([seg, [0, 0, 1, 1]] if kind == "multiline" else [[ax, ay, bx_, by_, ax, by_, ax, ay]]))
+            mx, my = (ax + bx_) // 2, (ay + by_) // 2
+            for dx, dy in ((r.randint(-3, 3), r.randint(-3, 3)) for _ in range(3)):
+                bxs.append((mx + dx, my + dy, mx + dx + 1, my + dy + 1))
+        check_family(chk, kind, els, bxs, r, tier, tag="float32-long-edges", oracle_frac=0.1, subtypes=("float32",),
+                     sig_override="intersects_bounds/float32-storage/long-edges-computed-in-single-precision")
     # seeded random stream: larger structures, larger coordinates
     rounds = 2 if tier == "quick" else 12
     for k in range(rounds):
